@@ -6,7 +6,8 @@ Theorem c16_router : forall st o st' out,
   match o with
   | OpConnect c =>
       r_wills st' = r_wills st \/
-      exists w, cr_will c = Some w /\ r_wills st' = al_set str_eqb (cr_client c) w (r_wills st)
+      (exists w, cr_will c = Some w /\ r_wills st' = al_set str_eqb (cr_client c) w (r_wills st)) \/
+      (cr_will c = None /\ r_wills st' = al_remove str_eqb (cr_client c) (r_wills st))
   | OpData id =>
       r_wills st' = match data_removes_will st id with
                     | Some c => al_remove str_eqb c (r_wills st)
@@ -27,9 +28,18 @@ Theorem c16_connect : forall st conn link st',
       ((cf_max_connections (r_cfg st1) <=? slab_len (r_conns st1)) = false /\
        r_wills st' = match c_will conn with
                      | Some w => al_set str_eqb client w (r_wills st)
-                     | None => r_wills st
+                     | None => al_remove str_eqb client (r_wills st)
                      end))).
 Proof. exact hnc_wills. Qed.
+
+Theorem c16_connect_registers : forall st conn link st' st1,
+  handle_new_connection st conn link = Ok st' ->
+  NoDup (map fst (r_wills st)) ->
+  validate_clientid (c_client conn) = true -> takeover st (c_client conn) = Ok st1 ->
+  (cf_max_connections (r_cfg st1) <=? slab_len (r_conns st1)) = false ->
+  al_get str_eqb (c_client conn) (r_wills st') = c_will conn /\
+  (forall c, c <> c_client conn -> al_get str_eqb c (r_wills st') = al_get str_eqb c (r_wills st)).
+Proof. exact connect_registers. Qed.
 
 Theorem c16_packet : forall st id client pk fl st1 fl1 brk,
   handle_packet st id client pk fl = Ok (st1, fl1, brk) ->
@@ -106,6 +116,10 @@ Theorem c16_append_none : forall i l,
   ~ In i l -> countN i l = O.
 Proof. exact countN_notin. Qed.
 
+Theorem c16_wills_nodup : forall cfg st,
+  reachable cfg st -> NoDup (map fst (r_wills st)).
+Proof. exact reachable_wills_nodup. Qed.
+
 Theorem c16_provenance : forall cfg ops st outs c w,
   run_from cfg ops = Ok (st, outs) -> In (c, w) (r_wills st) ->
   exists orc cr, In (orc, OpConnect cr) ops /\ cr_client cr = c /\ cr_will cr = Some w.
@@ -116,3 +130,35 @@ Theorem c16_no_will_no_append : forall cfg ops st outs c,
   (forall orc cr, In (orc, OpConnect cr) ops -> cr_client cr = c -> cr_will cr = None) ->
   step st (OpWill c) = Ok (st, OutUnit).
 Proof. exact no_will_no_append. Qed.
+
+Theorem c16_will_absent_stable : forall ops,
+  forall st st' outs c,
+  run st ops = Ok (st', outs) -> al_get str_eqb c (r_wills st) = None ->
+  (forall orc cr, In (orc, OpConnect cr) ops -> cr_client cr = c -> cr_will cr = None) ->
+  al_get str_eqb c (r_wills st') = None.
+Proof. exact will_absent_stable. Qed.
+
+Theorem c16_current_connection_without_will : forall st conn link st' st1 ops st'' outs,
+  handle_new_connection st conn link = Ok st' ->
+  NoDup (map fst (r_wills st)) ->
+  validate_clientid (c_client conn) = true -> takeover st (c_client conn) = Ok st1 ->
+  (cf_max_connections (r_cfg st1) <=? slab_len (r_conns st1)) = false ->
+  c_will conn = None ->
+  run st' ops = Ok (st'', outs) ->
+  (forall orc cr, In (orc, OpConnect cr) ops -> cr_client cr = c_client conn -> cr_will cr = None) ->
+  step st'' (OpWill (c_client conn)) = Ok (st'', OutUnit).
+Proof. exact current_connection_without_will. Qed.
+
+(** Epilogue of the per-connection task (M-STACK: the tail of remote() as the pure function
+    [epilogue], compared with the real task by the stack driver). *)
+From Rumqtt Require Stack.Model Stack.Spec Stack.Proofs.
+
+Theorem c16_decision : forall e,
+  Stack.Model.epilogue e Stack.Model.WaitTimeout =
+  (match e with Stack.Model.RouterDrop => false | _ => true end, true).
+Proof. exact Stack.Proofs.c16_decision. Qed.
+
+Theorem c16_no_will_only_by_takeover : forall e w,
+  snd (Stack.Model.epilogue e w) = false ->
+  w = Stack.Model.WaitMsg Stack.Model.Cancel \/ w = Stack.Model.WaitClosed.
+Proof. exact Stack.Proofs.c16_no_will_only_by_takeover. Qed.
